@@ -56,8 +56,8 @@ Emit == pc = "done" =>
      IF kind = "obj"
      THEN [topic |-> "C10", form |-> "nested_obj", oracle |-> TRUE, wt |-> TRUE, src |-> NestedSrc,
            alts |-> <<DottedSrc>>, docs |-> SubSeq(ObjDocs, 1, Len(ObjDocs) - 2),
-           plan |-> [tri |-> TRUE, sws |-> << <<>>, <<TRUE, TRUE, TRUE, TRUE>> >>]]
+           plan |-> [tri |-> TRUE, eng |-> TRUE, sws |-> << <<>>, <<TRUE, TRUE, TRUE, TRUE>> >>]]
      ELSE [topic |-> "C10", form |-> "nested_arr", oracle |-> TRUE, wt |-> TRUE, src |-> NestedSrc,
            alts |-> <<>>, docs |-> ArrDocs \o ObjDocs,
-           plan |-> [tri |-> TRUE, sws |-> << <<>>, <<TRUE, TRUE, TRUE, TRUE>> >>]]))
+           plan |-> [tri |-> TRUE, eng |-> TRUE, sws |-> << <<>>, <<TRUE, TRUE, TRUE, TRUE>> >>]]))
 =============================================================================
